@@ -10,8 +10,8 @@
     This file is a specification: nothing in it is derived from the Rust sources. *)
 From Coq Require Import String List NArith Bool.
 Import ListNotations.
-Open Scope string_scope.
-Open Scope N_scope.
+Local Open Scope string_scope.
+Local Open Scope N_scope.
 
 Definition member := (string * N * bool)%type.     (* name, number, required *)
 
